@@ -45,15 +45,29 @@ def split_file(path, chunk):
 
 
 def validate_trace(run, module, path, nontrivial=None, what="no behaviour of the specification explains the recorded case",
-                   chunk=4000, timeout=3000, env=None, sample_key=None):
-    """Validate an ndjson trace (one record per case) against spec/<module>; rejected ids -> violations."""
-    total_bad = 0
-    for part in split_file(path, chunk):
-        cases = read_ndjson(part)
+                   chunk=None, timeout=3000, env=None, sample_key=None, jobs=8):
+    """Validate an ndjson trace (one record per case) against spec/<module>; rejected ids -> violations.
+    The file is cut into chunks validated by parallel single-worker TLC processes."""
+    from concurrent.futures import ThreadPoolExecutor
+    nlines = sum(1 for _ in open(path))
+    if nlines == 0:
+        raise T.ToolError("empty trace %s" % path)
+    if chunk is None:
+        chunk = max(200, min(4000, (nlines + jobs - 1) // jobs))
+    parts = split_file(path, chunk)
+
+    def one(ip):
+        i, part = ip
         e = {"TRACE": part}
         if env:
             e.update(env)
-        r = T.run_tlc(module, env=e, workers=1, timeout=timeout, tag=run.prop + "_" + module)
+        return T.run_tlc(module, env=e, workers=1, timeout=timeout, tag="%s_%s_%d" % (run.prop, module, i), xmx="3g")
+
+    with ThreadPoolExecutor(max_workers=jobs) as ex:
+        results = list(ex.map(one, list(enumerate(parts))))
+    total_bad = 0
+    for part, r in zip(parts, results):
+        cases = read_ndjson(part)
         run.add_tlc(r)
         if r.violation:
             raise T.ToolError("trace spec %s reported %s (a fault of the specification, not of cel-rust)" % (module, r.violation))
@@ -65,7 +79,7 @@ def validate_trace(run, module, path, nontrivial=None, what="no behaviour of the
         bad = set(res.get("bad", []))
         run.extra["outside_pinned_semantics"] = run.extra.get("outside_pinned_semantics", 0) + res.get("dev", 0)
         for c in cases:
-            key = json.dumps(c.get("src", c), sort_keys=True) + json.dumps(c.get("vars", ""), sort_keys=True)
+            key = json.dumps(c.get("src", c), sort_keys=True) + json.dumps(c.get("vars", c.get("vl", "")), sort_keys=True)
             nt = True if nontrivial is None else bool(nontrivial(c))
             run.note_case(key, nt)
             if c["id"] in bad:
@@ -115,6 +129,25 @@ def model_check(run, module, cfg=None, workers=12, timeout=3000, required_action
     return r
 
 
+def mc_vectors(run, cfg, module="CelEvalMC", trace_module="CelEvalTrace", workers=12, timeout=3000, nontrivial=None, required_actions=None):
+    """Model-check spec/<module> under <cfg>.cfg (invariants relate the abstract machine to the declarative
+    denotation on every program the model builds), then replay every generated program against the
+    implementation and validate what it did (spec -> implementation)."""
+    r = model_check(run, module, cfg=cfg, workers=workers, timeout=timeout, required_actions=required_actions)
+    if not r.vecs:
+        raise T.ToolError("model %s produced no vectors" % cfg)
+    vec = run.work(cfg + ".vectors.ndjson")
+    with open(vec, "w") as f:
+        for v in r.vecs:
+            f.write(v + "\n")
+    out = run.work(cfg + ".cases.ndjson")
+    celconf(["run-vectors", "--in", vec, "--out", out])
+    run.extra.setdefault("models", []).append({"cfg": cfg, "distinct_states": r.distinct, "programs": len(r.vecs)})
+    validate_trace(run, trace_module, out, nontrivial=nontrivial,
+                   what="generated program: implementation behaviour is not a behaviour of the specification")
+    return r
+
+
 def replay(prop, path):
     """Re-run a stored violation against the current tree."""
     d = json.load(open(path))
@@ -145,6 +178,9 @@ def c06(run):
     run.rule = ("model: all programs over {&&,||,?:} with bounded operators built inside TLC, invariants OnlyNeeded/ResultMatchesDen; "
                 "impl->spec: seeded random nestings (depth<=4) of the three operators over bool constants, error-raising leaves, "
                 "logging host calls, also inside macro bodies and host-call arguments; a case is non-trivial if it logs a host call or raises")
+    mc_vectors(run, run.q("CelEvalMC_C06", "CelEvalMC_C06_thorough"), nontrivial=has_log)
+    mc_vectors(run, run.q("CelEvalMC_C06_macroq", "CelEvalMC_C06_macro"), nontrivial=has_log)
+    run.exhaustive = True
     path = drive_eval(run, "c06", run.q(1500, 40000))
     validate_trace(run, "CelEvalTrace", path, nontrivial=has_log)
 
@@ -153,6 +189,8 @@ def c06(run):
 def c07(run):
     run.rule = ("impl->spec: seeded random programs (depth<=5..10) in which most leaves and calls are wrapped by the logging function t(tag, e); "
                 "the ordered host-call log must equal the specification's; non-trivial = at least two logged calls")
+    mc_vectors(run, "CelEvalMC_C07", nontrivial=lambda c: len(c.get("log", [])) >= 2)
+    run.exhaustive = True
     path = drive_eval(run, "c07", run.q(1500, 40000), depth=run.q(5, 8))
     validate_trace(run, "CelEvalTrace", path, nontrivial=lambda c: len(c.get("log", [])) >= 2)
 
@@ -160,6 +198,10 @@ def c07(run):
 @check("C10")
 def c10(run):
     run.rule = ("impl->spec: seeded random macro programs over lists and maps with logging / erroring bodies; non-trivial = contains a comprehension")
+    mc_vectors(run, "CelEvalMC_C10")
+    if run.tier == "thorough":
+        mc_vectors(run, "CelEvalMC_C10_lists")
+    run.exhaustive = True
     path = drive_eval(run, "c10", run.q(1500, 40000))
     validate_trace(run, "CelEvalTrace", path, nontrivial=lambda c: '"comp"' in json.dumps(c.get("ast")))
 
@@ -168,5 +210,8 @@ def c10(run):
 def c03(run):
     run.rule = ("impl->spec: seeded random well-typed programs of the core fragment (depth<=6), boundary-biased literals, generated context; "
                 "value or error class and host log must equal the specification's; non-trivial = at least 3 AST nodes")
+    mc_vectors(run, "CelEvalMC_C03_arith")
+    mc_vectors(run, "CelEvalMC_C03_core")
+    run.exhaustive = True
     path = drive_eval(run, "c03", run.q(2500, 60000), depth=run.q(5, 6))
     validate_trace(run, "CelEvalTrace", path, nontrivial=lambda c: json.dumps(c.get("ast")).count('"k"') >= 3)
